@@ -51,7 +51,126 @@ let part1 op ps args =
      | "areEqual" -> bs (Model.areEqual a.(0) a.(1))
      | _ -> "UNKNOWN-OP")
 
+
+(* ---- part 2: ops of harness/c07_recint.C *)
+let h = hex_of_z
+let zi n = z_of_za (ZA.of_int n)
+let mga_cache : (string, Model.mgmod) Hashtbl.t = Hashtbl.create 64
+let mr_cache : (string, Model.mgmod) Hashtbl.t = Hashtbl.create 64
+let memo tbl key f = match Hashtbl.find_opt tbl key with Some x -> x | None -> let x = f () in Hashtbl.replace tbl key x; x
+let part2 op ks ps args =
+  let kk = int_of_string ks - 6 in
+  let k = nat_of_int kk in
+  let p = zs ps in
+  let a = Array.of_list (List.map zs args) in
+  let nbits = nat_of_int (64 lsl kk) in
+  let key = ks ^ ":" ^ ps in
+  let pre = String.sub op 0 2 and name = String.sub op 2 (String.length op - 2) in
+  if pre = "A." then begin
+    let m = memo mga_cache key (fun () -> Model.mga_init_module k p) in
+    let elt r = h r ^ " " ^ h (Model.mga_get_ruint k m r) in
+    let u64 x = x in
+    match name with
+    | "module" -> h m.Model.g_p ^ " " ^ h m.Model.g_p1 ^ " " ^ h m.Model.g_r
+    | "ctor.mgi" -> elt (Model.mga_of_mgi k m a.(0))
+    | "ctor.ruint" | "ctor.mpz" | "assign.ruint" -> elt (Model.mga_of_ruint k m a.(0))
+    | "ctor.u64" | "ctor.u32" -> elt (Model.mga_of_unsigned k m a.(0))
+    | "ctor.i64" | "ctor.i32" -> elt (Model.mga_of_signed k m a.(0))
+    | "ctor.rint" -> elt (Model.mga_of_rint k m a.(0))
+    | "ctor.copy" -> elt a.(0)
+    | "ctor.default" -> elt Model.Z0
+    | "get.ruint" | "get.mpz" | "get.reduction" -> h (Model.mga_get_ruint k m a.(0))
+    | "get.u64" -> h (Model.u64 (Model.mga_get_ruint k m a.(0)))
+    | "mul.abc" | "mul.ab" | "mul.op" | "mul.opeq" -> elt (Model.mga_mul k m a.(0) a.(1))
+    | "mul.alias" -> elt (Model.mga_mul k m a.(0) a.(0))
+    | "mul.T" | "mul.Tin" -> elt (Model.mga_mul_T k m a.(0) (u64 a.(1)))
+    | "square.ab" | "square.a" -> elt (Model.mga_square k m a.(0))
+    | "add.abc" | "add.ab" | "add.op" | "add.opeq" -> elt (Model.mga_add k m a.(0) a.(1))
+    | "add.T" -> elt (Model.mga_add_T k m a.(0) a.(1))
+    | "add.inc" -> elt (Model.mga_add_T k m a.(0) (zi 1))
+    | "sub.abc" | "sub.op" -> elt (Model.mga_sub k m a.(0) a.(1))
+    | "sub.ab" | "sub.opeq" -> elt (Model.mga_subin k m a.(0) a.(1))
+    | "sub.T" -> elt (Model.mga_sub_T k m a.(0) a.(1))
+    | "sub.Tminus" -> elt (Model.mga_T_sub k m a.(1) a.(0))
+    | "sub.dec" -> elt (Model.mga_subin k m a.(0) (Model.mga_of_unsigned k m (zi 1)))
+    | "neg.ab" | "neg.a" | "neg.op" -> elt (Model.mga_neg k m a.(0))
+    | "inv.ab" | "inv.a" -> elt (Model.mga_inv k m a.(0))
+    | "inv.T" -> elt (Model.mga_inv_T k m a.(0))
+    | "div.abc" | "div.ab" | "div.op" | "div.opeq" -> elt (Model.mga_div k m a.(0) a.(1))
+    | "addmul.abc" -> elt (Model.mga_addmul k m a.(0) a.(1) a.(2))
+    | "exp.u64" -> elt (Model.mga_exp_u k m a.(0) a.(1))
+    | "exp.ruint" -> elt (Model.mga_exp_ru k m a.(0) a.(1))
+    | "eq" -> let e = Model.mga_eq a.(0) a.(1) in bs e ^ " " ^ bs (not e)
+    | "eq.ruint" -> let e = Model.mga_eq_ruint k m a.(0) a.(1) in bs e ^ " " ^ bs (not e)
+    | _ -> "UNKNOWN-OP"
+  end else if pre = "I." then begin
+    let elt r = h r ^ " " ^ h (Model.mgi_get_ruint r) in
+    match name with
+    | "module" -> h p
+    | "ctor.mga" -> let m = memo mga_cache key (fun () -> Model.mga_init_module k p) in elt (Model.mgi_of_mga k m a.(0))
+    | "ctor.ruint" | "ctor.mpz" | "assign.ruint" | "ctor.u64" | "ctor.u32" | "ctor.copy" -> elt (Model.mgi_of_ruint p a.(0))
+    | "ctor.i64" | "ctor.i32" -> elt (Model.mgi_of_signed k p a.(0))
+    | "ctor.rint" -> elt (Model.mgi_of_rint k p a.(0))
+    | "ctor.default" -> elt Model.Z0
+    | "get.ruint" | "get.mpz" -> h a.(0)
+    | "get.reduction" -> h (Model.mgi_of_ruint p a.(0))
+    | "get.u64" -> h (Model.u64 a.(0))
+    | "mul.abc" | "mul.ab" | "mul.op" | "mul.opeq" | "mul.T" | "mul.Tin" -> elt (Model.mgi_mul p a.(0) a.(1))
+    | "mul.alias" | "square.ab" | "square.a" -> elt (Model.mgi_mul p a.(0) a.(0))
+    | "add.abc" | "add.ab" | "add.op" | "add.opeq" -> elt (Model.mgi_add k p a.(0) a.(1))
+    | "add.T" -> elt (Model.mgi_add_T k p a.(0) a.(1))
+    | "add.inc" -> elt (Model.mgi_add_T k p a.(0) (zi 1))
+    | "sub.abc" | "sub.op" -> elt (Model.mgi_sub k p a.(0) a.(1))
+    | "sub.ab" | "sub.opeq" -> elt (Model.mgi_subin k p a.(0) a.(1))
+    | "sub.T" -> elt (Model.mgi_sub_T k p a.(0) a.(1))
+    | "sub.Tminus" -> elt (Model.mgi_T_sub k p a.(1) a.(0))
+    | "sub.dec" -> elt (Model.mgi_subin k p a.(0) (Model.mgi_of_ruint p (zi 1)))
+    | "neg.ab" | "neg.a" | "neg.op" -> elt (Model.mgi_neg k p a.(0))
+    | "inv.ab" | "inv.a" | "inv.T" -> elt (Model.mgi_inv k p a.(0))
+    | "div.abc" | "div.ab" | "div.op" | "div.opeq" -> elt (Model.mgi_div k p a.(0) a.(1))
+    | "addmul.abc" -> elt (Model.mgi_addmul p a.(0) a.(1) a.(2))
+    | "exp.u64" -> elt (Model.mgi_exp p (nat_of_int 64) a.(0) a.(1))
+    | "exp.ruint" -> elt (Model.mgi_exp p nbits a.(0) a.(1))
+    | "eq" -> let e = Model.mga_eq a.(0) a.(1) in bs e ^ " " ^ bs (not e)
+    | "eq.ruint" -> let e = Model.mga_eq a.(0) a.(1) in bs e ^ " " ^ bs (not e)
+    | _ -> "UNKNOWN-OP"
+  end else begin
+    let m = memo mr_cache key (fun () -> Model.mr_mk k p) in
+    let elt r = h r ^ " " ^ h (Model.mr_convert k m r) in
+    let fields () = String.concat " " (List.map h [m.Model.g_p1; m.Model.g_r; m.Model.g_r2; m.Model.g_r3; m.Model.g_one;
+                                                   m.Model.g_mOne; Model.Z0; m.Model.g_p; m.Model.g_p; m.Model.g_p; m.Model.g_p]) in
+    match name with
+    | "ctor.p" | "ctor.copy" | "ctor.assign" -> fields ()
+    | "assign.mul" | "mul" | "mulin" -> elt (Model.mr_mul k m a.(0) a.(1))
+    | "reduc" -> h (Model.mr_reduc k m a.(0))
+    | "to_mg" | "to_mg.in" -> elt (Model.mr_to_mg k m a.(0))
+    | "add" | "addin" -> elt (Model.mr_add k m a.(0) a.(1))
+    | "sub" -> elt (Model.mr_sub k m a.(0) a.(1))
+    | "subin" -> elt (Model.mr_subin k m a.(0) a.(1))
+    | "neg" | "negin" -> elt (Model.mr_neg k m a.(0))
+    | "inv" | "invin" -> elt (Model.mr_inv k m a.(0))
+    | "div" -> elt (Model.mr_div k m a.(0) a.(1))
+    | "divin" -> elt (Model.mr_divin k m a.(0) a.(1))
+    | "axpy" -> elt (Model.mr_axpy k m a.(0) a.(1) a.(2))
+    | "axpyin" -> elt (Model.mr_axpyin k m a.(0) a.(1) a.(2))
+    | "axmy" -> elt (Model.mr_axmy k m a.(0) a.(1) a.(2))
+    | "axmyin" -> elt (Model.mr_axmyin k m a.(0) a.(1) a.(2))
+    | "maxpy" -> elt (Model.mr_maxpy k m a.(0) a.(1) a.(2))
+    | "maxpyin" -> elt (Model.mr_maxpyin k m a.(0) a.(1) a.(2))
+    | "init.none" -> elt Model.Z0
+    | "init.ruint" | "init.u64" | "init.i64" | "init.u32" | "init.i32" | "init.integer" | "read" -> elt (Model.mr_init k m a.(0))
+    | "convert.ruint" | "convert.integer" | "write" -> h (Model.mr_convert k m a.(0))
+    | "convert.u64" -> h (Model.u64 (Model.mr_convert k m a.(0)))
+    | "isUnit" -> bs (Model.mr_isUnit m a.(0))
+    | "isZero" -> bs (Model.isZero a.(0))
+    | "isOne" -> bs (Model.mga_eq a.(0) m.Model.g_one)
+    | "isMOne" -> bs (Model.mga_eq a.(0) m.Model.g_mOne)
+    | "areEqual" -> bs (Model.mga_eq a.(0) a.(1))
+    | _ -> "UNKNOWN-OP"
+  end
+
 let () = run_lines (fun toks ->
   match toks with
+  | op :: ks :: ps :: args when String.length op > 2 && op.[1] = '.' && (op.[0] = 'A' || op.[0] = 'I' || op.[0] = 'R') -> part2 op ks ps args
   | op :: ps :: args -> part1 op ps args
   | _ -> "BAD-LINE")
